@@ -1,7 +1,7 @@
 from .base import *
 
 ID = 'C19'
-THEOREMS = ['C19_activation_keeps_angle', 'C19_relu', 'C19_magnitudes', 'C19_negative_charge', 'C19_otf_phase', 'C19_magnify_intensity', 'C19_tanh_bound', 'C19_range_hyps_inhabited', 'C19_sigmoid_bound', 'C19_exp_range_inhabited', 'C19_inverse_field_value', 'C19_wire_field_value', 'C19_snell']
+THEOREMS = ['C19_activation_keeps_angle', 'C19_relu', 'C19_magnitudes', 'C19_negative_charge', 'C19_otf_phase', 'C19_magnify_intensity', 'C19_tanh_bound', 'C19_range_hyps_inhabited', 'C19_sigmoid_bound', 'C19_exp_range_inhabited', 'C19_inverse_field_value', 'C19_wire_field_value', 'C19_snell', 'C19_poynting_value', 'C19_mu0_value']
 OWNED = {'TRefract', 'TMagnify', 'TInvField', 'TEField', 'TWireB', 'TArea', 'TActivate', 'TPropagate', 'TDisperse'}
 RULE = ('metamorphic pairs: refraction with |sin t_in| <= n (Snell), magnification by m vs 1/m^2, inverse-power fields under r -> s r with s in [1e-3,1e3] and real powers in (0, 3.5] (integers and non-integers), flipped charge, wire field under r -> s r, '
         'quadrilaterals with corners in all quadrants and blade histories under a common translation / rotation and against the shoelace area, activations on all quadrants, propagation / dispersion magnitudes. '
@@ -69,5 +69,5 @@ LEVEL_TEXT = ('Kernel-checked theorems for every libm: activations never change 
               'a negative charge turns the inverse-power field by exactly two blades with the remainder untouched; OTF adds exactly one blade; magnification scales intensity by fl(1/fl(m m)). '
               'C19_tanh_bound: under the range hypothesis |tanhF| <= 1 the tanh activation never exceeds the input magnitude in absolute value. '
               'C19_snell (S2, REAL pi / sin): sin(refracted direction) = sin(incident direction)/n within ua + 1e-10 + 3e-14 + (u+3e-15)/n, magnitude untouched, angle canonical - sin accurate to u, the asin call returning an angle whose sine reproduces its argument within ua. C19_sigmoid_bound (under exp in [0, 2^999]: the sigmoid output is in [0, magnitude]), C19_inverse_field_value (magnitude k q / r^n with the REAL power within a relative 1.04(up + 3*2^-52) for a pow call accurate to up), C19_wire_field_value (mu I / (2 pi r) with the REAL pi within 4.2*2^-52 relative, no libm). '
-              'Snell, 1/r^n and 1/r scaling, sigmoid bound and quadrilateral-area invariance / shoelace equality are decided against mpmath (S3, partial).')
+              'Snell, 1/r^n and 1/r scaling, sigmoid bound and quadrilateral-area invariance / shoelace equality are decided against mpmath (S3, partial). C19_poynting_value (Poynting.v): |S| = |E||B||sin(angle between)|/mu0 with mu0 the double 4 pi 1e-7 (C19_mu0_value), at the angle of the wedge, within (B + 2^-53(|X|+B))/mu0 + 2^-1075, B the wedge allowance.')
 LEVEL_NOTE = ('Partial. Trusted: Coq kernel + vm_compute; 4 standard-library axioms; plus the primitive-integer axioms (PrimInt63.*, Uint63.*_spec) of the Interval tactic for the real-pi theorem C19_wire_field_value; hand-written model validated bit-for-bit each run with the recorded libm table; numeric laws rest on testing against mpmath.')
